@@ -39,7 +39,7 @@ var (
 	c15Watch    int32
 )
 
-const stallLimit = 40 * time.Second
+const stallLimit = 90 * time.Second
 
 // usedReceiver: when set, tryDecode first decodes and queries these (valid) bytes with the same
 // receiver, then decodes the damaged stream into it.
